@@ -110,7 +110,7 @@ func (a *AuthenStart) Validate() error {
 			return err
 		}
 	}
-	return nil
+	return fitsWire(maxUint8Len, a.User, a.Port, a.RemAddr, a.Data)
 }
 
 // MarshalBinary encodes AuthenStart to tacacs bytes
@@ -250,7 +250,7 @@ func (a *AuthenContinue) Validate() error {
 			return err
 		}
 	}
-	return nil
+	return fitsWire(maxUint16Len, a.UserMessage, a.Data)
 }
 
 // MarshalBinary encodes AuthenContinue to tacacs bytes
@@ -370,7 +370,7 @@ func (a *AuthenReply) Validate() error {
 			return err
 		}
 	}
-	return nil
+	return fitsWire(maxUint16Len, a.ServerMsg, a.Data)
 }
 
 // MarshalBinary encodes AuthenReply to tacacs bytes
